@@ -20,13 +20,13 @@ def cleanVM : List (RVal × RVal) → Bool
   | (a, b) :: rest => cleanV a && cleanV b && cleanVM rest
 end
 
-theorem memberAll_replicate_zip {D : Decls} {t : Ts} : ∀ {js : List Json}, MemberAll D t js →
+theorem memberAll_replicate_zip {D : Decls} {t : Ts} : ∀ {js : List JVal}, MemberAll D t js →
     MemberZip D (List.replicate js.length t) js
   | [], _ => MemberZip.nil
   | _ :: _, .cons hj hs => MemberZip.cons hj (memberAll_replicate_zip hs)
 
-theorem serAllB_length (serN : Str → List RTy → RVal → Option Json) (t : RTy) :
-    ∀ (vs : List RVal) (js : List Json), serAllB serN t vs = some js → js.length = vs.length := by
+theorem serAllB_length (serN : Str → List RTy → RVal → Option JVal) (t : RTy) :
+    ∀ (vs : List RVal) (js : List JVal), serAllB serN t vs = some js → js.length = vs.length := by
   intro vs
   induction vs with
   | nil => intro js h; simp [serAllB] at h; subst h; rfl
@@ -64,7 +64,7 @@ theorem primTsName_row {r n : String} (h : primTsName r = some n) :
     have := List.find?_some hf
     simpa using this
 
-theorem prim_sound (D : Decls) (htab : TableOK) (r : String) (v : RVal) (T : Ts) (j : Json)
+theorem prim_sound (D : Decls) (htab : TableOK) (r : String) (v : RVal) (T : Ts) (j : JVal)
     (hT : primTs r = some T) (hs : (primClass r).bind (fun c => serPrim c v) = some j)
     (hc : cleanV v = true) : Member D T j := by
   unfold primTs at hT
@@ -124,25 +124,25 @@ open TsRs.Ts
 
 section
 variable (D : Decls) (limit : Nat) (nameN : Str → List Ts → Option Ts)
-  (serN : Str → List RTy → RVal → Option Json)
+  (serN : Str → List RTy → RVal → Option JVal)
 
 /-- the callback for user types is sound -/
 def NamedSound : Prop :=
   ∀ id args targs v j T, nameTyBL limit nameN args = some targs → nameN id targs = some T →
       serN id args v = some j → cleanV v = true → Member D T j
 
-theorem keyOfJson_cases {kj : Json} {key : Str} (h : keyOfJson kj = some key) :
+theorem keyOfJson_cases {kj : JVal} {key : Str} (h : keyOfJson kj = some key) :
     kj = .str key ∨ ∃ i : Int, kj = .int i ∧ (toString i).toList = key := by
   cases kj <;> simp [keyOfJson] at h
   · right; exact ⟨_, rfl, h⟩
   · left; rw [h]
 
-theorem serB_wrap (k : WrapKind) (t : RTy) (v : RVal) (j : Json)
+theorem serB_wrap (k : WrapKind) (t : RTy) (v : RVal) (j : JVal)
     (hs : serB serN (.wrap k t) v = some j) (hc : cleanV v = true) : serB serN t v = some j := by
   cases k <;> cases v <;> simp_all [serB, cleanV]
 
 mutual
-theorem serB_sound (htab : TableOK) (hN : NamedSound D limit nameN serN) (t : RTy) (v : RVal) (T : Ts) (j : Json)
+theorem serB_sound (htab : TableOK) (hN : NamedSound D limit nameN serN) (t : RTy) (v : RVal) (T : Ts) (j : JVal)
     (hT : nameTyB limit nameN t = some T) (hs : serB serN t v = some j) (hc : cleanV v = true) :
     Member D T j := by
   cases t with
@@ -224,14 +224,14 @@ theorem serB_sound (htab : TableOK) (hN : NamedSound D limit nameN serN) (t : RT
           obtain ⟨j0, hj0, rfl⟩ := hs
           have hm := serB_sound htab hN t' v0 X j0 ht hj0 (by simpa [cleanV] using hc)
           refine Member.union (t := .obj [({ name := "Ok".toList }, X)]) (by simp) ?_
-          refine Member.obj (MemberFields.present (v := j0) (by simp [Json.lookup]) hm MemberFields.nil) ?_
-          intro k hk; simp [Json.keys] at hk; subst hk; exact ⟨({ name := "Ok".toList }, X), by simp, rfl⟩
+          refine Member.obj (MemberFields.present (v := j0) (by simp [JVal.lookup]) hm MemberFields.nil) ?_
+          intro k hk; simp [JVal.keys] at hk; subst hk; exact ⟨({ name := "Ok".toList }, X), by simp, rfl⟩
         · rename_i v0
           obtain ⟨j0, hj0, rfl⟩ := hs
           have hm := serB_sound htab hN e v0 E j0 he hj0 (by simpa [cleanV] using hc)
           refine Member.union (t := .obj [({ name := "Err".toList }, E)]) (by simp) ?_
-          refine Member.obj (MemberFields.present (v := j0) (by simp [Json.lookup]) hm MemberFields.nil) ?_
-          intro k hk; simp [Json.keys] at hk; subst hk; exact ⟨({ name := "Err".toList }, E), by simp, rfl⟩
+          refine Member.obj (MemberFields.present (v := j0) (by simp [JVal.lookup]) hm MemberFields.nil) ?_
+          intro k hk; simp [JVal.keys] at hk; subst hk; exact ⟨({ name := "Err".toList }, E), by simp, rfl⟩
   | range t' =>
     simp only [nameTyB, Option.map_eq_some_iff] at hT
     obtain ⟨X, hX, rfl⟩ := hT
@@ -248,9 +248,9 @@ theorem serB_sound (htab : TableOK) (hN : NamedSound D limit nameN serN) (t : RT
         have hca : cleanV a = true ∧ cleanV b = true := by simpa [cleanV] using hc
         have hma := serB_sound htab hN t' a X ja hX ha hca.1
         have hmb := serB_sound htab hN t' b X jb hX hb hca.2
-        refine Member.obj (MemberFields.present (v := ja) (by simp [Json.lookup]) hma
-          (MemberFields.present (v := jb) (by simp [Json.lookup]) hmb MemberFields.nil)) ?_
-        intro k hk; simp [Json.keys] at hk
+        refine Member.obj (MemberFields.present (v := ja) (by simp [JVal.lookup]) hma
+          (MemberFields.present (v := jb) (by simp [JVal.lookup]) hmb MemberFields.nil)) ?_
+        intro k hk; simp [JVal.keys] at hk
         rcases hk with hk | hk
         · subst hk; exact ⟨({ name := "start".toList }, X), by simp, rfl⟩
         · subst hk; exact ⟨({ name := "end".toList }, X), by simp, rfl⟩
@@ -263,7 +263,7 @@ theorem serB_sound (htab : TableOK) (hN : NamedSound D limit nameN serN) (t : RT
     exact hN id args targs v j T h1 h2 (by simpa [serB] using hs) hc
   | param n => simp [serB] at hs
 termination_by (sizeOf t, sizeOf v)
-theorem serAllB_sound (htab : TableOK) (hN : NamedSound D limit nameN serN) (t : RTy) (vs : List RVal) (T : Ts) (js : List Json)
+theorem serAllB_sound (htab : TableOK) (hN : NamedSound D limit nameN serN) (t : RTy) (vs : List RVal) (T : Ts) (js : List JVal)
     (hT : nameTyB limit nameN t = some T) (hs : serAllB serN t vs = some js) (hc : cleanVL vs = true) :
     MemberAll D T js := by
   cases vs with
@@ -281,7 +281,7 @@ theorem serAllB_sound (htab : TableOK) (hN : NamedSound D limit nameN serN) (t :
         have hcc : cleanV v = true ∧ cleanVL vs' = true := by simpa [cleanVL] using hc
         exact MemberAll.cons (serB_sound htab hN t v T j hT h1 hcc.1) (serAllB_sound htab hN t vs' T js' hT h2 hcc.2)
 termination_by (sizeOf t, sizeOf vs)
-theorem serZipB_sound (htab : TableOK) (hN : NamedSound D limit nameN serN) (ts : List RTy) (vs : List RVal) (Ts' : List Ts) (js : List Json)
+theorem serZipB_sound (htab : TableOK) (hN : NamedSound D limit nameN serN) (ts : List RTy) (vs : List RVal) (Ts' : List Ts) (js : List JVal)
     (hT : nameTyBL limit nameN ts = some Ts') (hs : serZipB serN ts vs = some js) (hc : cleanVL vs = true) :
     MemberZip D Ts' js := by
   cases ts with
@@ -312,7 +312,7 @@ theorem serZipB_sound (htab : TableOK) (hN : NamedSound D limit nameN serN) (ts 
               have hcc : cleanV v = true ∧ cleanVL vs' = true := by simpa [cleanVL] using hc
               exact MemberZip.cons (serB_sound htab hN t v X j h3 h1 hcc.1) (serZipB_sound htab hN ts' vs' Xs js' h4 h2 hcc.2)
 termination_by (sizeOf ts, sizeOf vs)
-theorem serMapB_sound (htab : TableOK) (hN : NamedSound D limit nameN serN) (k v : RTy) (kvs : List (RVal × RVal)) (K V : Ts) (js : List (Str × Json))
+theorem serMapB_sound (htab : TableOK) (hN : NamedSound D limit nameN serN) (k v : RTy) (kvs : List (RVal × RVal)) (K V : Ts) (js : List (Str × JVal))
     (hK : nameTyB limit nameN k = some K) (hV : nameTyB limit nameN v = some V)
     (hs : serMapB serN k v kvs = some js) (hc : cleanVM kvs = true) : MemberMap D K V js := by
   have hposv : 0 < sizeOf v := by cases v <;> simp <;> omega
